@@ -100,9 +100,14 @@ def build_evidence(prop, tier, seed, jobs, results, wall, nviol, known):
         sysobj = get_system(name)
         rules.append(f"[{name}] {getattr(sysobj, 'rule', '')}")
     samples = []
+    seen_sys = {}
     for r in results:
-        for h in r["samples"][:2]:
-            if len(samples) < 8:
+        # per system: one short and one of the longest histories actually executed
+        if not r["samples"] or seen_sys.get(r["system"], 0) >= 2:
+            continue
+        for h in (r["samples"][0], r["samples"][-1]):
+            if len(samples) < 12 and seen_sys.get(r["system"], 0) < 2:
+                seen_sys[r["system"]] = seen_sys.get(r["system"], 0) + 1
                 samples.append({"system": r["system"], "cfg": {k: v for k, v in r["cfg"].items() if k != "cost"}, "history": h})
     caps = [c for r in results for c in r["caps_hit"]]
     # exhaustive = every configuration enumerated its bounded space completely (closure or all sequences <= depth)
